@@ -193,8 +193,8 @@ def run(ck, ctx):
                 cells = cells_of(fname, x, [(mod, fi, r)])
 
                 def lookup(tab):
-                    c_ = {g.vn(n.args[1]): n for n in walk([r.value]) if n.op == "Subscript" and n.args[0] is tab and
-                          n.args[1].op not in ("Const", "Slice")}
+                    c_ = {g.vn(_ungathered(n.args[1])): n for n in walk([r.value]) if n.op == "Subscript" and
+                          n.args[0] is tab and n.args[1].op not in ("Const", "Slice")}
                     return next(iter(c_.values())) if len(c_) == 1 else None
                 roles = {"L": lookup(Lm_t), "Tb": lookup(T_t), "Pb": lookup(P_t), "Hb": lookup(H_t), "x": x,
                          "gmr": gmr_n, "R": R_n}
@@ -219,7 +219,8 @@ def run(ck, ctx):
                     if iso is None or valid is not True:
                         continue
                     n_cells[iso] += 1
-                    keys = {g.vn(n) for k_, n in roles.items() if k_ not in ("gmr", "R")}
+                    keys = {g.vn(roles["x"])}       # look-ups of a layer table are atoms of their table (whatever
+                    #                                   the spelling of the gather: T[i][m], T[i[m]])
                     Pc2 = PolyFacet(I, gather_transparent=True)
                     Pc2.cell = (pr_, assign)
                     Pc2.opaque = (lambda n, _k=keys, _o=Pc2.opaque: _o(n) or g.vn(n) in _k)
@@ -324,14 +325,7 @@ def run(ck, ctx):
                 tag = fname if len(copies) == 1 else f"{fname} [{mod.split('.')[-1]}]"
                 subs = [n for n in walk([r.value]) if n.op == "Subscript" and n.args[0].id in tab_ids and
                         n.args[1].op not in ("Const", "Slice")]
-                def ungathered(ix):
-                    # layer[mask]: the layer index of the selected elements - the same index term
-                    for _ in range(3):
-                        if ix.op == "Subscript" and _is_masklike(ix.args[1]):
-                            ix = ix.args[0]
-                        else:
-                            break
-                    return ix
+                ungathered = _ungathered
                 idxs = {g.vn(ungathered(n.args[1])): ungathered(n.args[1]) for n in subs}
                 used = {tab_ids[n.args[0].id] for n in subs}
                 ck.ob("R19.2", f"{tag}: all layer tables are indexed by the same layer-index term", len(idxs) == 1,
@@ -376,15 +370,22 @@ def run(ck, ctx):
                     ok_sel = ok_sel and bool(e_ and e_[0])
                 base_ok = dl[-1][1] is not None and dl[-1][1].op == "Const" and dl[-1][1].attr == 0
                 cf = _count_form(I, idx, key_tab, n_layers)
-                if cf is not None and not js:
+                if cf is not None:
                     # the layer index as a count  #{j >= 1 : table[j] op x}  (comparison count or searchsorted on the
                     # monotone table, R19.3): the same function as the decision list with that comparison
                     op_, xq = cf
                     ck.ob("R19.2", f"{tag}: layer j is selected by table[j] {'>=' if up else '<='} x (a boundary "
                           "belongs to the upper layer, as in the inverse direction)", op_ == (">=" if up else "<="), idx,
-                          fname, f"layer index = number of layer bases j >= 1 with table[j] {op_} x")
+                          fname, f"layer index = number of layer bases j >= 1 with table[j] {op_} x"
+                          if not op_.startswith("!") else "layer index = " + op_[1:])
                     ck.ob("R19.2", f"{tag}: every layer 1..{(n_layers or 0) - 1} is considered, in increasing order",
                           True, idx, fname, "count over table[1:]")
+                    js = None
+                if js is not None and not js:
+                    ck.ob("R19.2", f"{tag}: layer j is selected by table[j] {'>=' if up else '<='} x (a boundary "
+                          "belongs to the upper layer, as in the inverse direction)", None, idx, fname,
+                          "the layer index is neither a decision list over the layer bases nor a recognised count / "
+                          "searchsorted form: " + g.show(idx, 4)[:160])
                     js = None
                 if js is not None:
                   ck.ob("R19.2", f"{tag}: layer j is selected by table[j] {'>=' if up else '<='} x (a boundary "
@@ -490,6 +491,16 @@ def _first_difference(g, a, b, depth=0):
     return f"{g.show(a, 2)} [{a.where()}]  vs  {g.show(b, 2)} [{b.where()}]"
 
 
+def _ungathered(ix):
+    """layer[mask]: the layer index of the selected elements - the same index term"""
+    for _ in range(4):
+        if ix.op == "Subscript" and _is_masklike(ix.args[1]):
+            ix = ix.args[0]
+        else:
+            break
+    return ix
+
+
 def _is_masklike(n):
     return n.op in ("Compare", "BoolOp") or (n.op == "BinOp" and n.attr in ("BitAnd", "BitOr", "BitXor")) or \
         (n.op == "UnaryOp" and n.attr in ("Invert", "Not"))
@@ -544,9 +555,70 @@ def _count_form(I, idx, key_tab, n_layers):
     n = strip(idx)
     if n_layers is None:
         return None
+
+    def full_slice(n_, reverse):
+        """n_ is the whole table (reverse False) or key_tab[::-1] (reverse True)"""
+        if not reverse:
+            return n_ is key_tab
+        if n_.op == "Subscript" and n_.args[0] is key_tab and n_.args[1].op == "Slice":
+            vals_ = [a.attr if a.op == "Const" else "?" for a in n_.args[1].args] + [None] * 3
+            return vals_[0] is None and vals_[1] is None and vals_[2] == -1
+        return is_ext_call(n_, "numpy.flip", "numpy.flipud") and len(n_.args) == 2 and n_.args[1] is key_tab
+
+    def ss_of(s_):
+        """(table argument, x, side) of a searchsorted call (function or method spelling)"""
+        if is_ext_call(s_, "numpy.searchsorted"):
+            pos, kws = call_args(s_)
+        elif s_.op == "MCall" and s_.attr[0] == "searchsorted" and s_.args:
+            pos = list(s_.args[:1 + s_.attr[1]])
+            kws = dict(zip(s_.attr[2], s_.args[1 + s_.attr[1]:]))
+        else:
+            return None
+        if len(pos) < 2 or "sorter" in kws:
+            return None
+        side = kws.get("side") or (pos[2] if len(pos) > 2 else None)
+        side = "left" if side is None else (side.attr if side.op == "Const" else None)
+        return (pos[0], pos[1], side) if side in ("left", "right") else None
+    # where(isnan(x), 0, E): a guard for an input outside the domain; E decides
+    if is_ext_call(n, "numpy.where") and len(n.args) == 4 and is_ext_call(n.args[1], "numpy.isnan") and \
+            n.args[2].op == "Const" and n.args[2].attr == 0:
+        n = strip(n.args[3])
+    # max(E, 0): the count cannot be negative; needed exactly when E is taken over the whole table (the ground layer's
+    # own base would count): max((n - 1) - searchsorted(T[::-1], x, side), 0) and max(searchsorted(T, x, side) - 1, 0)
+    clamped = None
+    if is_ext_call(n, "numpy.maximum", "numpy.fmax", "builtins.max") and len(n.args) == 3 and \
+            any(a.op == "Const" and a.attr == 0 for a in n.args[1:]):
+        clamped = strip(next(a for a in n.args[1:] if not (a.op == "Const" and a.attr == 0)))
+    elif is_ext_call(n, "numpy.clip") and len(n.args) >= 3 and n.args[2].op == "Const" and n.args[2].attr == 0 and \
+            (len(n.args) == 3 or (n.args[3].op == "Const" and n.args[3].attr is None)):
+        clamped = strip(n.args[1])
+    if clamped is not None:
+        from ..facets.poly import PolyFacet
+        cand = [y for y in walk([clamped]) if ss_of(y) is not None]
+        if len(cand) == 1:
+            tab_, x_, side_ = ss_of(cand[0])
+            Pq = PolyFacet(I, opaque_ids={cand[0].id})
+            sv = Pq.of(cand[0])
+            try:
+                val = Pq.of(clamped)
+                if full_slice(tab_, True) and Pq.equal(val, Pq.ref(f"{n_layers - 1} - s", {"s": sv})):
+                    return (">=" if side_ == "left" else ">", unbroadcast(x_))
+                if full_slice(tab_, False) and Pq.equal(val, Pq.ref("s - 1", {"s": sv})):
+                    return ("<=" if side_ == "right" else "<", unbroadcast(x_))
+                if full_slice(tab_, True) or full_slice(tab_, False):
+                    return ("!a count over the whole table that is not reduced by the ground layer's own base",
+                            unbroadcast(x_))
+            except Exception:       # noqa: BLE001
+                pass
+            n = clamped            # a clamp around one of the unclamped forms below is harmless
+        else:
+            n = clamped
     # (n - 1) - searchsorted(T[:0:-1], x, side)
     if n.op == "BinOp" and n.attr == "Sub" and n.args[0].op == "Const" and n.args[0].attr == n_layers - 1:
         s_ = strip(n.args[1])
+        if ss_of(s_) is not None and full_slice(ss_of(s_)[0], True) and clamped is None:
+            return ("!a count over the whole reversed table without a floor at the ground layer (-1, the last layer, "
+                    "above the ground pressure)", unbroadcast(ss_of(s_)[1]))
         if is_ext_call(s_, "numpy.searchsorted"):
             pos, kws = call_args(s_)
             side = kws.get("side") or (pos[2] if len(pos) > 2 else None)
